@@ -165,16 +165,18 @@ React(p, s) ==
   ELSE "err"
 
 (* ---------------------------------------------------------------- C11 ---- *)
-ReqCases == {[id |-> i, frm |-> f, pp |-> p, to |-> t, method |-> m, builder |-> b, doc |-> d, reason |-> r] :
+(* reqres = "y": the request carries a resource (and type) of its own, of another media type than the reply's *)
+ReqCases == {[id |-> i, frm |-> f, pp |-> p, to |-> t, method |-> m, builder |-> b, doc |-> d, reason |-> r, reqres |-> q] :
                i \in {"", "x"}, f \in {"", "full", "name"}, p \in {"", "full", "ident"}, t \in {"", "full"}, m \in Methods,
                b \in {"success", "successRes", "failure"},
                d \in {D1("ping"), D1("text"), D1("json"), D2("cont", "text"), Doc(<<"coll", "json">>, 1)},
-               r \in {"", "y"}}
-MsgCases == {[id |-> i, frm |-> f, pp |-> p, to |-> t, method |-> e, builder |-> b, doc |-> NoDoc, reason |-> r] :
+               r \in {"", "y"}, q \in {"", "y"}}
+MsgCases == {[id |-> i, frm |-> f, pp |-> p, to |-> t, method |-> e, builder |-> b, doc |-> NoDoc, reason |-> r, reqres |-> ""] :
                i \in {"", "x"}, f \in {"", "full", "name"}, p \in {"", "full", "ident"}, t \in {"", "full"}, e \in Events,
                b \in {"notification", "failedNotification"}, r \in {"", "y"}}
 ReplyCases == {c \in ReqCases : (c.builder = "successRes" \/ c.doc = D1("ping"))
-                                /\ (c.builder = "failure" \/ c.reason = "")}
+                                /\ (c.builder = "failure" \/ c.reason = "")
+                                /\ (c.reqres = "y" => (c.id = "x" /\ c.frm = "full" /\ c.to = "full"))}
               \cup {c \in MsgCases : (c.builder = "failedNotification" \/ c.reason = "")
                                      /\ (c.builder = "notification" \/ c.method = "failed")}
 Sender(c) == IF FixSender THEN (IF c.pp # "" THEN "pp" ELSE IF c.frm # "" THEN "from" ELSE "")
